@@ -93,15 +93,15 @@ def paramsFlagged (m : MethodIn) : List (VarIn × Bool) :=
 theorem paramsFlagged_length (m : MethodIn) : (paramsFlagged m).length = m.params.length := by
   simp [paramsFlagged]
 
-theorem methodData_vars (reg : Registry) (m : MethodIn) :
-    (methodData reg m).2.2.2 = m.params.length ∧
-    Pointwise VarMatches (methodData reg m).2.2.1 (paramsFlagged m ++ m.results.map (fun v => (v, false))) := by
+theorem methodData_vars (reg : Registry) (tps : List String) (m : MethodIn) :
+    (methodData reg tps m).2.2.2 = m.params.length ∧
+    Pointwise VarMatches (methodData reg tps m).2.2.1 (paramsFlagged m ++ m.results.map (fun v => (v, false))) := by
   refine ⟨rfl, ?_⟩
   simp only [methodData]
-  have h1 := addVars_appends (paramsFlagged m) ⟨reg, reg.newScope, []⟩
+  have h1 := addVars_appends (paramsFlagged m) ⟨reg, tps.foldl (fun s n => s.addName (exportedName n)) reg.newScope, []⟩
   obtain ⟨n1, e1, f1⟩ := h1
   have h2 := addVars_appends (m.results.map (fun v => (v, false)))
-    ((paramsFlagged m).foldl (fun st p => addVar st p.1 p.2) ⟨reg, reg.newScope, []⟩)
+    ((paramsFlagged m).foldl (fun st p => addVar st p.1 p.2) ⟨reg, tps.foldl (fun s n => s.addName (exportedName n)) reg.newScope, []⟩)
   obtain ⟨n2, e2, f2⟩ := h2
   simp only [paramsFlagged, List.foldl_map] at e1 e2
   rw [e2, e1]
